@@ -14,6 +14,9 @@ def run_knap(case):
     vals = [_real(x, sc) for x in case["values"]]
     wts = [_real(x, sc) for x in case["weights"]]
     cap = _real(case["capacity"], sc)
+    K = case.get("vshift", 0)       # huge integer values: K + v with equal weights, so the best selection is the same as for the small v >= 1
+    if K:
+        vals = [K + v for v in case["values"]]
     events = []
     for minimize in (False, True):
         try:
@@ -22,7 +25,10 @@ def run_knap(case):
             if not all(type(i) is int for i in items):
                 events.append({"e": "raise", "what": "non_int_index"})
                 continue
-            o = float(r.objective) * sc
+            obj = r.objective
+            if K:
+                obj = (int(obj) if isinstance(obj, float) and obj == int(obj) else obj) - K * len(items)
+            o = float(obj) * sc
             events.append({"e": "ret", "status": r.status.name, "minimize": minimize, "items": items, "obj": int(round(o)), "exact": abs(o - round(o)) < 1e-6})
         except Exception as ex:  # noqa: BLE001
             events.append({"e": "raise", "what": type(ex).__name__})
@@ -35,6 +41,16 @@ def run_bins(case):
     sc = case["scale"]
     sizes = [_real(x, sc) for x in case["sizes"]]
     cap = _real(case["capacity"], sc)
+    U = case.get("unit")
+    if U:
+        # huge integers: sizes a*U and capacity (c+1)*U - 1 admit exactly the packings of sizes a and capacity c (loads are multiples
+        # of U).  The same numbers were seen as floats earlier in the process (another data source): that must not change anything
+        sizes = [x * U for x in case["sizes"]]
+        cap = (case["capacity"] + 1) * U - 1
+        try:
+            solve_bin_pack([float(x) for x in sizes], float((case["capacity"] + 1) * U))
+        except Exception:  # noqa: BLE001
+            pass
     events = []
     for alg in ("first-fit", "best-fit", "first-fit-decreasing", "best-fit-decreasing"):
         try:
@@ -66,6 +82,21 @@ def gen_knap(rng):
     if sc != 1 and rng.random() < 0.5:            # the decimals whose binary sums misbehave
         weights = [rng.choice([1, 2, 3, 7]) * (sc // 10) for _ in range(n)]
         cap = rng.choice([3, 6, 7, 10]) * (sc // 10)
+    k = rng.random()
+    if k < 0.05:
+        # the whole instance at a tiny scale (units of 10^-10): an absolute tolerance on the weight test admits overweight selections
+        n = rng.randint(2, 5)
+        cap = rng.randint(4, 12)
+        if rng.random() < 0.5:
+            return {"values": [rng.randint(1, 9) for _ in range(n)], "weights": [rng.randint(cap // 2, cap) for _ in range(n)], "capacity": cap, "scale": 10 ** 10}
+        # capacity 0.01 or 0.1, items a hair (below 1e-9) over half of it: two of them do not fit together
+        cap = rng.choice([10 ** 8, 10 ** 9])
+        return {"values": [rng.randint(1, 9) for _ in range(n)], "weights": [cap // 2 + rng.randint(0, 4) for _ in range(n)], "capacity": cap, "scale": 10 ** 10}
+    if k < 0.1:
+        # integer values beyond 2^53 that differ in their low bits; equal weights, so the best selection is the top few
+        n = rng.randint(2, 7)
+        return {"values": [rng.randint(1, 6) for _ in range(n)], "weights": [1] * n, "capacity": rng.randint(1, n), "scale": 1,
+                "vshift": rng.choice([2 ** 53, 2 ** 53 - 2, 10 ** 16, 2 ** 60 + 1])}
     if rng.random() < 0.06:
         # large integer capacity (beyond 10^5) nearly filled by one heavy item, the rest of the room fits several unit-size items
         cap = rng.randint(100001, 400000)
@@ -89,6 +120,10 @@ def gen_bins(rng):
     if rng.random() < 0.4:                         # pairs that exactly fill a bin
         a = rng.randint(1, cap - 1)
         sizes[: 2] = [a, cap - a][: len(sizes[: 2])] if n >= 2 else sizes
+    if rng.random() < 0.06:
+        n = rng.randint(2, 6)
+        cap = rng.randint(2, 6)
+        return {"sizes": [rng.randint(1, cap) for _ in range(n)], "capacity": cap, "scale": 1, "unit": rng.choice([2 ** 70, 2 ** 70, 10 ** 23 + 1, 2 ** 64 + 3])}
     if rng.random() < 0.08:
         # the whole instance at a tiny scale (units of 10^-9): an absolute fit tolerance would overfill the bins
         n = rng.randint(2, 6)
